@@ -39,6 +39,20 @@ static std::vector<Job> make_jobs(vrt::Rng &r, int n) {
     Job j;
     j.g = gen_geometry(r, r.coin(2, 3), gp);
     j.o = gen_options(r, j.g);
+    // float-valued options (explicit quantisation origin / range) travel through Options' string store: every job has its own values
+    if (r.coin()) {
+      for (int a = 0; a < j.g.pc->num_attributes(); ++a) {
+        const PointAttribute *att = j.g.pc->attribute(a);
+        if (att->data_type() != DT_FLOAT32 || att->attribute_type() == GeometryAttribute::NORMAL) continue;
+        j.o.expert = true;
+        j.o.explicit_att = a;
+        j.o.explicit_dims = att->num_components();
+        j.o.explicit_origin = (float)(-1000.0 - 5000.0 * r.unit());
+        j.o.explicit_range = (float)(20000.0 + 30000.0 * r.unit());
+        if (j.o.qbits[a] == 0) j.o.qbits[a] = 12;
+        break;
+      }
+    }
     jobs.push_back(std::move(j));
   }
   return jobs;
